@@ -4,7 +4,7 @@ import BSModel.Model.Attrs
 namespace BS.Drv.C17
 open BS.Attrs BS.Drv
 
-def md : Nat := BS.Gen.intMaxStrDigits
+def md : Nat := BS.Gen.c17IntMaxStrDigits
 
 def ptok (s : String) : PStr := if s == "-" then [] else cps s
 def stok (s : PStr) : String := showL s
@@ -56,7 +56,7 @@ def parseSets (s : String) : List (Key × PyVal) :=
     | _ => none
 
 def parseMap (s : String) : Option CdataMap :=
-  if s == "default" then some BS.Gen.defaultCdataListAttributes
+  if s == "default" then some BS.Gen.c17DefaultCdataListAttributes
   else if s == "none" then none
   else
     let body := (s.drop 2).toString
@@ -84,7 +84,13 @@ def showRender (d : Items) : String :=
 
 def showTag : Res TagAttrs → String
   | .valueError => "valueError"
-  | .ok t => s!"ok {showCls t.cls} {t.listCls} {showItems t.items} R {showRender t.items}"
+  | .ok t => s!"ok {showCls t.cls} {t.listCls} x{bit t.isXml} {showItems t.items} R {showRender t.items}"
+
+/-- builder token `<listcls>` or `<listcls>x` (an XML-flavoured builder: `is_xml = True`) -/
+def mkCfg (m dcls lcls : String) : BuilderCfg :=
+  let x := lcls.endsWith "x"
+  let n := if x then (lcls.dropEnd 1).toString else lcls
+  ⟨parseMap m, parseCls dcls, n.toNat!, x⟩
 
 def showRes : Res Items → String
   | .valueError => "valueError"
@@ -111,6 +117,47 @@ def parseAttrsArg (s : String) : Option (DictClass × Items) :=
     | [c, items] => some (parseCls c, parseItems items)
     | _ => none
 
+def parseListOp (op arg : String) : ListOp :=
+  if op == "append" then .append (ptok arg)
+  else if op == "remove" then .remove (ptok arg)
+  else if op == "clear" then .clear
+  else if op == "sort" then .sort
+  else if op == "iadd" then .iadd (parseToks (if arg == "_" then "" else arg))
+  else if op == "reverse" then .reverse
+  else if op == "pop" then .pop
+  else .insert0 (ptok arg)
+
+def parseStep (s : String) : Option Step :=
+  match s.splitOn "!" with
+  | ["P", name, raw] => some (.parse (ptok name) (parseRaw raw))
+  | ["N", name, items] => some (.newTag (ptok name) (parseItems items))
+  | ["C", i] => some (.copy i.toNat!)
+  | ["M", i, key, op, arg] => some (.mutate i.toNat! (ptok key) (parseListOp op arg))
+  | ["D", i, key] => some (.del i.toNat! (ptok key))
+  | ["S", i, kv] =>
+    match kv.splitOn "=" with
+    | [k, v] => some (.set i.toNat! (parseKey k) (parseVal v))
+    | _ => none
+  | _ => none
+
+def showHist : Res Hist → String
+  | .valueError => "valueError"
+  | .ok st =>
+    if st.isEmpty then "-"
+    else " ## ".intercalate (st.map fun p => s!"{stok p.1} {showTag (.ok p.2)}")
+
+def showAttrList : AttrList → String
+  | .strs c l => s!"l:{c}:{showToks l}"
+  | .single c v => s!"L:{c}:{showVal v}"
+
+/-- `str(obj)` of an object known by number only: one private-use code point, replaced by the harness -/
+def otherPlaceholder (i : Nat) : PStr := [0xE000 + i]
+
+def showProbe (t : TagAttrs) (k : PStr) : String :=
+  let gi := match tagGetItem t k with | some v => showVal v | none => "KeyError"
+  s!"{stok k} h{bit (hasAttr t k)} g={showVal (tagGet t k .none)} gd={showVal (tagGet t k (.str [100]))} " ++
+  s!"a={showAttrList (getAttributeList t k .none)} ad={showAttrList (getAttributeList t k (.list 0 [[100]]))} i={gi}"
+
 def handle : List String → String
   | ["split", s] => let r := splitWs (ptok s); if r.isEmpty then "-" else showToks r
   | ["join", l] => stok (joinSp (parseToks (if l == "-" then "" else l)))
@@ -123,11 +170,26 @@ def handle : List String → String
   | ["dictold", sets] =>
     showRes ((parseSets sets).foldl (fun r kv => r.bind fun d => htmlSetOld md d kv.1 kv.2) (.ok []))
   | ["tag", b, m, dcls, lcls, isxml, name, attrs, sets] =>
-    let cfg : Option BuilderCfg := if b == "b" then some ⟨parseMap m, parseCls dcls, lcls.toNat!⟩ else none
+    let cfg : Option BuilderCfg := if b == "b" then some (mkCfg m dcls lcls) else none
     showTag ((tagInit md pyLower cfg (isxml == "1") (ptok name) (parseAttrsArg attrs)).bind
       fun t => tagSetMany md t (parseSets sets))
   | ["parse", m, dcls, lcls, ondup, name, attrs] =>
-    showTag (parseStartTag md pyLower ⟨parseMap m, parseCls dcls, lcls.toNat!⟩ (parseOnDup ondup) (ptok name) (parseRaw attrs))
+    showTag (parseStartTag md pyLower (mkCfg m dcls lcls) (parseOnDup ondup) (ptok name) (parseRaw attrs))
+  | ["fmt", e, items] =>
+    match attributeString md ⟨e == "1", id, otherPlaceholder⟩ (parseItems items) with
+    | .ok s => "ok " ++ stok s
+    | .valueError => "valueError"
+  | ["acc", cls, lcls, items, probes, dels] =>
+    let t : TagAttrs := ⟨parseCls cls, lcls.toNat!, parseItems items, false⟩
+    let ps := (splitNE ";" probes).map ptok
+    let t' := ((splitNE ";" dels).map ptok).foldl tagDel t
+    " | ".intercalate (ps.map (showProbe t)) ++ " || " ++ showItems t'.items ++ " || " ++
+      " | ".intercalate (ps.map (showProbe t'))
+  | ["copy", cls, lcls, isxml, name, items, sets] =>
+    showTag ((copyTag md pyLower (ptok name) ⟨parseCls cls, lcls.toNat!, parseItems items, isxml == "1"⟩).bind
+      fun t => tagSetMany md t (parseSets sets))
+  | ["hist", m, dcls, lcls, steps] =>
+    showHist (runHist md pyLower (mkCfg m dcls lcls) [] ((splitNE "|" steps).filterMap parseStep))
   | _ => "bad-op"
 
 end BS.Drv.C17
